@@ -57,11 +57,14 @@ def modules_of(prop):
 
 def build_lean(prop):
     """Regenerate constants from the Rust source, rebuild the property module and the driver."""
-    import extract_consts
+    import extract_consts, rs2lean
     with Lock("lake"):
         ok, msg = extract_consts.regenerate(REPO, os.path.join(LEAN, "SyModel", "Generated", "Consts.lean"))
         if not ok:
             return False, "extract_consts: " + msg, None, os.path.exists(os.path.join(LEAN, ".lake", "build", "bin", "sydriver"))
+        # the translated functions (Generated/Code/*.lean): a unit that can no longer be translated is written as a file
+        # that does not compile, so exactly the bridge modules that import it stop checking
+        tr_ok, tr_msgs = rs2lean.regenerate(REPO, os.path.join(LEAN, "SyModel", "Generated", "Code"))
         # the driver first: the correspondence / oracle streams (the search for a failing input) only need the
         # executable model, so they still run when a proof obligation of the property module is broken
         rd = sh(["lake", "build", "sydriver"], cwd=LEAN)
@@ -69,6 +72,7 @@ def build_lean(prop):
         if r.returncode != 0 or rd.returncode != 0:
             out = (rd.stdout if rd.returncode != 0 else "") + r.stdout
             m = re.findall(r"error: ([^\n]*)", out)
+            if not tr_ok: out = "rs2lean: " + "; ".join(tr_msgs) + "\n" + out
             return False, out[-6000:], (m[0] if m else None), rd.returncode == 0
     return True, "", None, True
 
